@@ -767,9 +767,16 @@ fn c10_new_case(vi: usize, conn: usize, expect100: bool, mi: usize) {
             }
             let needs = ah::method_needs_body(mi);
             assert!(f.inner.should_send_body == needs, "C09/body-due-iff-method-takes-one");
-            assert!(f.inner.await_100_continue == expect100, "C11/await-flag-iff-expect-header");
             assert!(holder_kind(&f.inner.call) == needs as u8, "C09/prepare-holder-matches-method");
             assert!(f.inner.status.is_none() && f.inner.location.is_none(), "C09/no-response-facts-yet");
+            let mut f = f;
+            if !needs {
+                // the Expect handshake only matters once a body is due: ask for one despite the method
+                f.send_body_despite_method();
+                assert!(f.inner.should_send_body && holder_kind(&f.inner.call) == 1, "C09/despite-method-makes-a-body-due");
+            }
+            // a body is due now: the head is followed by Await100 iff Expect: 100-continue was requested
+            assert!(f.inner.await_100_continue == expect100, "C09/await100-follows-the-head-iff-body-due-and-expect");
             core::mem::forget(f);
         }
     }
